@@ -284,6 +284,19 @@ func c05Encode(c *core.Ctx, k *core.Case) {
 					kk := &core.Case{Oracle: "encode", Target: "nas.Message.PlainNasEncode", I: []int64{int64(fam), int64(mt)}}
 					c.Fail(kk, "encode-unknown-type-accepted", fmt.Sprintf("encoding family %d with unassigned message type %d returned no error (plain %v, family %v)", fam, mt, err1, err2))
 				}
+				// the same into a buffer that already holds data (an outer header, an earlier message)
+				pre := bytes.NewBuffer([]byte{0x7e, 0x02, 1, 2, 3, 4, 5})
+				var err3 error
+				if fam == 0 {
+					err3 = m.GmmMessageEncode(pre)
+				} else {
+					err3 = m.GsmMessageEncode(pre)
+				}
+				n++
+				if err3 == nil {
+					kk := &core.Case{Oracle: "encode", Target: "nas.Message.PlainNasEncode", I: []int64{int64(fam), int64(mt)}}
+					c.Fail(kk, "encode-unknown-type-accepted:behind-data", fmt.Sprintf("encoding family %d with unassigned message type %d into a buffer that already holds 7 octets returned no error (%d octets in the buffer afterwards)", fam, mt, pre.Len()))
+				}
 				continue
 			}
 			body := refcodec.MinimalBody(def, r)
@@ -427,6 +440,34 @@ func init() {
 			}})
 		}
 		us = append(us, coldUnit("nas.Message", "decode", "encode"))
+		if sp, err := codecSpec(); err == nil {
+			// messages with meaningful contents (nested messages at several offsets, EAP, PPP ...)
+			// and every security header type nibble in octet 2 of 5GMM messages: routing looks at
+			// the first octet and the type octet only
+			us = append(us, domainUnits(sp, dispatchable(sp), tier, 30, func(c *core.Ctx, d *domainPDU, i int) {
+				if !d.Canon || (i%2 == 1 && !c.Thorough() && d.Kind != "nested-offset") {
+					return
+				}
+				for sht := 0; sht <= 4; sht++ {
+					b := d.B
+					if sht > 0 {
+						if d.Def.Family != "GMM" {
+							break
+						}
+						b = cloneB(d.B)
+						b[1] = b[1]&0xf0 | byte(sht)
+					}
+					ep := int64(epPlain)
+					if (i+sht)%3 == 2 {
+						ep = epGmm
+						if d.Def.Family == "GSM" {
+							ep = epGsm
+						}
+					}
+					c.Do(&core.Case{Oracle: "one", Target: "nas.Message." + epNames[ep], B: [][]byte{b}, I: []int64{ep, 1}})
+				}
+			})...)
+		}
 		us = append(us, core.Unit{Name: "short", Weight: 5, Run: func(c *core.Ctx) {
 			c.Do(&core.Case{Oracle: "short", Target: "nas.Message"})
 		}})
@@ -477,7 +518,14 @@ func c10Decode(c *core.Ctx, k *core.Case) {
 	ep := int(k.I[0])
 	orig := k.B[0]
 	// input with spare capacity so that writes past len would be visible too
-	backing := make([]byte, len(orig), len(orig)+16)
+	// half of the inputs (by their hash) sit in a slice of exactly their length, the others
+	// have 16 guarded octets of spare capacity: a write "behind the input" lands in the guard,
+	// and a buffer that cannot grow in place behaves differently from one that can
+	extra := 16
+	if core.HashBytes(0x10, orig)&1 == 1 {
+		extra = 0
+	}
+	backing := make([]byte, len(orig), len(orig)+extra)
 	copy(backing, orig)
 	for i := len(orig); i < cap(backing); i++ {
 		backing[:cap(backing)][i] = 0xa5
